@@ -25,6 +25,9 @@ func init() {
 	}
 }
 
+// exitByReturn: the driver function whose integer result main hands to os.Exit (nil when main does the work itself).
+var exitByReturn *ssa.Function
+
 func isProcessStart(c ssa.CallInstruction) bool {
 	for _, n := range []string{"Cmd.Run", "Cmd.Start", "Cmd.Output", "Cmd.CombinedOutput"} {
 		if flow.CalleeIs(c, "os/exec", n) {
@@ -42,6 +45,32 @@ func runC15(e *Env) {
 	if mainFn == nil {
 		r.Unknown("E3.exec-dom", "sandbox.main", "", "not found")
 		return
+	}
+	// `func main() { os.Exit(run()) }`: the work is done by a driver whose integer result is the exit status; the rules
+	// below are then applied to the driver, a `return k` with a non-zero constant counting as an exit
+	exitByReturn = nil
+	for _, c := range flow.Calls(mainFn) {
+		if !flow.CalleeIs(c, "os", "Exit") || len(c.Common().Args) != 1 {
+			continue
+		}
+		if dc, ok := flow.StripConv(c.Common().Args[0]).(*ssa.Call); ok {
+			if d := flow.Callee(dc); d != nil && d.Pkg != nil && d.Pkg.Pkg.Path() == load.PkgSandbox && len(d.Blocks) > 0 {
+				// main does nothing else that matters: no process start, no other call into the package
+				only := true
+				for _, c2 := range flow.Calls(mainFn) {
+					if c2 == c || c2 == ssa.CallInstruction(dc) {
+						continue
+					}
+					if isProcessStart(c2) {
+						only = false
+					}
+				}
+				if only {
+					exitByReturn = d
+					mainFn = d
+				}
+			}
+		}
 	}
 	g := flow.G(mainFn)
 	// process starts anywhere in the package
@@ -98,7 +127,7 @@ func runC15(e *Env) {
 			errv := flow.ErrResult(dep)
 			good := false
 			if errv != nil && g.Live(s.Block()) {
-				nn, known := flow.ErrNonNil(flow.DomConds(s.Block()), errv)
+				nn, known := flow.ErrKnownAt(errv, s)
 				good = known && !nn
 			}
 			r.Check(good, "E3.exec-dom", "sandbox.main/"+calleeNameCI(s)+"-after-"+calleeName(dep), p.Pos(s.Pos()),
@@ -221,7 +250,7 @@ func runC15(e *Env) {
 		nF++
 		failEdgeReturnsError(e, p, "E3.policyflow", load.FuncName(pf)+"/"+calleeName(call), call, true)
 	}
-	r.Floor("E3.policyflow(fallible calls in the parser)", nF, 2)
+	r.Floor("E3.policyflow(fallible calls in the parser)", nF, 1)
 	// the parser's success return is &config.Seccomp of the struct Unpack filled
 	for _, ret := range flow.Returns(pf) {
 		rs := flow.RetResults(ret)
@@ -390,7 +419,7 @@ func checkPolicyUnmodified(e *Env, p *load.Program, pf *ssa.Function, parse *ssa
 	if !r.HasBad("E3.policyflow") {
 		r.OK("E3.policyflow", "sandbox/policy-unmodified", p.Pos(pf.Pos()), "nothing writes to the policy between the configuration library filling it and LoadFilter receiving it")
 	}
-	r.Floor("E3.policyflow(policy holders examined)", n, 2)
+	r.Floor("E3.policyflow(policy holders examined)", n, 1)
 }
 
 func describeInstr(in ssa.Instruction) string {
@@ -434,7 +463,18 @@ func checkExitRegion(e *Env, p *load.Program, key string, from, fail *ssa.BasicB
 		}
 		if len(g.Succs(b)) == 0 {
 			// a return or panic inside the failure region
-			if _, isRet := b.Instrs[len(b.Instrs)-1].(*ssa.Return); isRet {
+			if ret, isRet := b.Instrs[len(b.Instrs)-1].(*ssa.Return); isRet {
+				if exitByReturn != nil && from.Parent() == exitByReturn && len(flow.RetResults(ret)) == 1 {
+					// the returned value is the exit status
+					k, isK := flow.ConstInt(flow.RetResults(ret)[0])
+					if isK && k != 0 {
+						exits++
+						continue
+					}
+					r.Bad("E3.exit", key+"/status", p.Pos(ret.Pos()), "the failure edge returns exit status 0 (or a non-constant)")
+					ok = false
+					continue
+				}
 				r.Bad("E3.exit", key+"/return", p.Pos(b.Instrs[len(b.Instrs)-1].Pos()), "the failure edge returns from main (exit status 0) instead of exiting non-zero")
 				ok = false
 			}
